@@ -305,3 +305,24 @@ def rule_g(ctx):
                     ctx.check(okc, "C08-G", "Link-node-only-if-some-child-not-shallow-empty", st["span"], fn_key(cb),
                               "Link construction must be guarded by any(|c| !c.is_shallow_empty())")
     ctx.floor("C08-G", "Link node constructions", found, 1)
+    # what "shallow empty" means for text: white-space-only text (and alt text) is empty
+    ise = F.one("RenderNode::is_shallow_empty")
+    info = F.adt("RenderNodeInfo")
+    names = {v["discr"]: v["name"] for v in info["variants"]}
+    from ..util import find_dispatch
+    disp = find_dispatch(ise, "RenderNodeInfo", 10)
+    for vn in ("Text", "Img"):
+        tb = [tb for v, tb in ise.term(disp)["targets"] if names[v] == vn]
+        okc = False
+        if tb:
+            region = ise.reach_from(tb[0])
+            trims = [x for x in region if ise.term(x)["k"] == "call" and callee_method(ise.term(x)) == "trim"]
+            for x in trims:
+                # the result is decided on the trimmed string: len()==0 or is_empty() of it
+                for y in ise.reach_from(x):
+                    ty = ise.term(y)
+                    if ty["k"] == "call" and callee_method(ty) in ("len", "is_empty") and \
+                            any(a[0] == "call" and a[1] and a[1].endswith("::trim") for a in ise.atoms(ty["args"][0], through_calls=False) | ise.atoms(ty["args"][0])):
+                        okc = True
+        ctx.check(okc, "C08-G", "shallow-empty:%s-is-whitespace-insensitive" % vn, ise.term(tb[0])["span"] if tb else ise.span, ise.id,
+                  "a link whose only content is white space must count as empty (is_shallow_empty must test the trimmed text)")
